@@ -2375,3 +2375,336 @@ mut("c03-first-sane-list-returned", ["C03"], [(BM, '''	heightDiff, err = checkCF
 ''')], ["C03.G6"])
 mut("c04-locator-relocks", ["C04", "C17"], [("headerfs/store.go", "		blockHeader, err := h.readHeader(height)\n		if err != nil {\n			return locator, err\n		}\n		headerHash := blockHeader.BlockHash()", "		blockHeader, err := h.FetchHeaderByHeight(height)\n		if err != nil {\n			return locator, err\n		}\n		headerHash := blockHeader.BlockHash()")], ["C04.P1", "C17.P3"])
 mut("c17-scanner-stop-waits-without-start", ["C17"], [(US, "	if atomic.LoadUint32(&s.started) != 0 {\n	batchShutdown:", "	{\n	batchShutdown:")], ["C17.S2"])
+
+# ---- batch 12 ----
+mut("c11-fanout-stops-at-gone-subscriber", ["C11", "C19"], [(MG, '''	for _, subscriber := range m.subscribers {
+		m.notifySubscriber(subscriber, ntfn)
+	}
+}''', '''	for _, subscriber := range m.subscribers {
+		select {
+		case <-subscriber.quit:
+			return
+		default:
+		}
+		m.notifySubscriber(subscriber, ntfn)
+	}
+}''')], ["C11.W1", "C19.W2"])
+mut("c12-reward-dropped", ["C12"], [(WM, '''				// Reward the peer for the successful query.
+				w.cfg.Ranking.Reward(result.peer.Addr())
+''', '')], ["C12.O6"])
+mut("c12-reward-after-completion-check", ["C12"], [(WM, '''				// Reward the peer for the successful query.
+				w.cfg.Ranking.Reward(result.peer.Addr())
+''', ''), (WM, '''				progressed = true
+			}
+''', '''				progressed = true
+				w.cfg.Ranking.Reward(result.peer.Addr())
+			}
+''')], ["C12.O6"])
+mut("c12-order-descending", ["C12"], [("query/peer_rank.go", "		return score1 < score2", "		return score1 > score2")], ["C12.O6"])
+mut("c12-punish-lowers-score", ["C12"], [("query/peer_rank.go", "	p.rank[peer] = score + 1", "	p.rank[peer] = score - 1")], ["C12.O6"])
+mut("c12-handover-over-the-unordered-map", ["C12"], [(WM, '''			for _, p := range freeWorkers {
+				r := workers[p]
+''', '''			for p, r := range workers {
+				if r.activeJob != nil {
+					continue
+				}
+''')], ["C12.O6"])
+mut("c12-disconnect-not-recorded", ["C12"], [(WM, '''				if result.err == ErrPeerDisconnected {
+					w.cfg.Ranking.ResetRanking(
+						result.peer.Addr(),
+					)
+				} else {''', '''				if result.err == ErrPeerDisconnected {
+					log.Debugf("peer %v gone", result.peer.Addr())
+				} else {''')], ["C12.O6"])
+mut("c16-put-reports-len-under-lock", ["C16"], [(LRU, '''	evicted, err := c.evict(vs)
+	if err != nil {
+		c.mtx.Unlock()
+
+		return false, err
+	}''', '''	evicted, err := c.evict(vs)
+	if err != nil {
+		n := c.Len()
+		c.mtx.Unlock()
+
+		return false, fmt.Errorf("%d elements: %w", n, err)
+	}''')], ["C16.P2"])
+mut("c17-rollback-gives-up-silently", ["C17", "C02"], [(BM, '''		bs, err = b.cfg.BlockHeaders.RollbackLastBlock()
+		if err != nil {
+			return err
+		}
+
+		// Notifications are asynchronous, so we include the previous''', '''		bs, err = b.cfg.BlockHeaders.RollbackLastBlock()
+		if err != nil {
+			log.Errorf("rollback stopped: %v", err)
+			return nil
+		}
+
+		// Notifications are asynchronous, so we include the previous''')], ["C17.G1", "C02.G5"])
+mut("c17-rollback-polls-quit", ["C17", "C02"], [(BM, '''	for uint32(bs.Height) > height {
+		header, headerHeight, err := b.cfg.BlockHeaders.FetchHeader(&bs.Hash)''', '''	for uint32(bs.Height) > height {
+		select {
+		case <-b.quit:
+			return nil
+		default:
+		}
+		header, headerHeight, err := b.cfg.BlockHeaders.FetchHeader(&bs.Hash)''')], ["C17.G1", "C02.G5"])
+mut("c17-quiet-rollback-polls-quit-with-error", ["C17", "C02"], [(BM, '''	for uint32(bs.Height) > height {
+		header, headerHeight, err := b.cfg.BlockHeaders.FetchHeader(&bs.Hash)''', '''	for uint32(bs.Height) > height {
+		select {
+		case <-b.quit:
+			return ErrShuttingDown
+		default:
+		}
+		header, headerHeight, err := b.cfg.BlockHeaders.FetchHeader(&bs.Hash)''')], [])
+mut("c08-truncate-from-current-offset", ["C08"], [(ST, '''	fileInfo, err := h.file.Stat()
+	if err != nil {
+		return err
+	}
+	fileSize := fileInfo.Size()
+
+	// Calculate the total bytes to truncate based on number of headers.''', '''	fileSize, err := h.file.Seek(0, io.SeekCurrent)
+	if err != nil {
+		return err
+	}
+
+	// Calculate the total bytes to truncate based on number of headers.''')], ["C08.V1"])
+mut("c08-quiet-truncate-from-seek-end", ["C08"], [(ST, '''	fileInfo, err := h.file.Stat()
+	if err != nil {
+		return err
+	}
+	fileSize := fileInfo.Size()
+
+	// Calculate the total bytes to truncate based on number of headers.''', '''	fileSize, err := h.file.Seek(0, io.SeekEnd)
+	if err != nil {
+		return err
+	}
+
+	// Calculate the total bytes to truncate based on number of headers.''')], [])
+mut("c07-ancestors-without-the-lock", ["C07", "C01"], [(ST, '''	stopHash *chainhash.Hash) ([]wire.BlockHeader, uint32, error) {
+
+	// Lock store for read.
+	h.mtx.RLock()
+	defer h.mtx.RUnlock()
+''', '''	stopHash *chainhash.Hash) ([]wire.BlockHeader, uint32, error) {
+''')], ["C07.P2", "C01.P1"])
+mut("c07-filter-ancestors-lock-released-between", ["C07"], [(ST, '''	// Lock store for read.
+	f.mtx.RLock()
+	defer f.mtx.RUnlock()
+
+	// First, we'll find the final header in the range, this will be the
+	// ending height of our scan.
+	endHeight, err := f.heightFromHash(stopHash)
+	if err != nil {
+		return nil, 0, err
+	}
+	startHeight := endHeight - numHeaders
+
+	headers, err := f.readHeaderRange(startHeight, endHeight)
+	if err != nil {
+		return nil, 0, err
+	}
+''', '''	f.mtx.RLock()
+	endHeight, err := f.heightFromHash(stopHash)
+	f.mtx.RUnlock()
+	if err != nil {
+		return nil, 0, err
+	}
+	startHeight := endHeight - numHeaders
+
+	f.mtx.RLock()
+	headers, err := f.readHeaderRange(startHeight, endHeight)
+	f.mtx.RUnlock()
+	if err != nil {
+		return nil, 0, err
+	}
+''')], ["C07.P2"])
+mut("c01-fetchheader-composed-of-two-locked-calls", ["C01", "C07"], [(ST, '''	// Lock store for read.
+	h.mtx.RLock()
+	defer h.mtx.RUnlock()
+
+	// First, we'll query the index to obtain the block height of the
+	// passed block hash.
+	height, err := h.heightFromHash(hash)
+	if err != nil {
+		return nil, 0, err
+	}
+
+	// With the height known, we can now read the header from disk.
+	header, err := h.readHeader(height)
+	if err != nil {
+		return nil, 0, err
+	}
+
+	return &header, height, nil''', '''	height, err := h.HeightFromHash(hash)
+	if err != nil {
+		return nil, 0, err
+	}
+
+	header, err := h.FetchHeaderByHeight(height)
+	if err != nil {
+		return nil, 0, err
+	}
+
+	return header, height, nil''')], ["C01.P1", "C07.P2"])
+mut("c03-filter-store-reconciles-by-count", ["C03", "C08"], [(ST, '''	tipHash, tipHeight, err := fhs.chainTip()
+	if err != nil {
+		return nil, err
+	}
+''', '''	_, tipHeight, err := fhs.chainTip()
+	if err != nil {
+		return nil, err
+	}
+'''), (ST, '''	// Using the file's current height, fetch the latest on-disk header.
+	latestFileHeader, err := fhs.readHeader(fileHeight)
+	if err != nil {
+		return nil, err
+	}
+
+	// If the index's tip hash, and the file on-disk match, then we're
+	// doing here.
+	if tipHash.IsEqual(latestFileHeader) {
+		return fhs, nil
+	}
+''', '''	if fileHeight <= tipHeight+1 {
+		return fhs, nil
+	}
+''')], ["C03.O6", "C08.O4"])
+mut("c15-reply-channel-unbuffered", ["C15", "C17"], [(PB, "	errChan := make(chan error, 1)\n\n	select {\n	case b.broadcastReqs <- &broadcastReq{", "	errChan := make(chan error)\n\n	select {\n	case b.broadcastReqs <- &broadcastReq{")], ["C15.B3", "C17.B1"])
+mut("c06-retry-entry-not-restored", ["C06", "C12"], [(WM, '''				heap.Push(work, result.job)
+				currentQueries[result.job.index] = batchNum
+''', '''				heap.Push(work, result.job)
+''')], ["C06.O5", "C12.O1"])
+mut("c19-id-from-registry-size", ["C19", "C11"], [(MG, '''		id:         atomic.AddUint64(&m.subscriberCounter, 1),
+''', '''		id:         uint64(len(m.subscribers)) + 1,
+''')], ["C19.V3", "C11.V1"])
+mut("c02-context-anchored-on-other-list", ["C02", "C01"], [(BM, '''	parentHeaderCtx := newLightHeaderCtx(
+		prevNodeHeight, prevNodeHeader, b.cfg.BlockHeaders, hList,
+	)
+
+	// Create a lightChainCtx as well.''', '''	parentHeaderCtx := newLightHeaderCtx(
+		prevNodeHeight, prevNodeHeader, b.cfg.BlockHeaders, hList,
+	)
+	if back := b.headerList.Back(); back != nil && back.Height == prevNodeHeight {
+		parentHeaderCtx.node = back
+	}
+
+	// Create a lightChainCtx as well.''')], ["C02.W2", "C01.W2"])
+mut("c04-cfheaders-stop-one-past", ["C04"], [(BM, '''		stopHeader, err = b.cfg.BlockHeaders.FetchHeaderByHeight(
+			height + wire.MaxCFHeadersPerMsg - 1,
+		)
+		if err != nil {
+			return nil, 0
+		}
+
+		// We'll make sure we also update our stopHeight so we know how
+		// many headers to expect below.
+		stopHeight = height + wire.MaxCFHeadersPerMsg - 1''', '''		stopHeight = height + wire.MaxCFHeadersPerMsg
+		stopHeader, err = b.cfg.BlockHeaders.FetchHeaderByHeight(
+			stopHeight,
+		)
+		if err != nil {
+			return nil, 0
+		}
+''')], ["C04.V2"])
+mut("c07-append-syncs-and-fails-late", ["C07"], [(HF, '''			"error: %w", h.indexType, err)
+	}
+
+	return nil
+}
+
+// readRaw''', '''			"error: %w", h.indexType, err)
+	}
+
+	if err := h.file.Sync(); err != nil {
+		return fmt.Errorf("failed to sync header type %s: %w",
+			h.indexType, err)
+	}
+
+	return nil
+}
+
+// readRaw''')], ["C07.O6"])
+mut("c09-queued-update-skips-catchup-test", ["C09"], [(RS, '''		case update := <-ro.update:
+			updates = append(updates, update)
+
+		// A new block notification for the tip of the chain has''', '''		case update := <-ro.update:
+			updates = append(updates, update)
+			continue
+
+		// A new block notification for the tip of the chain has''')], ["C09.O4"])
+mut("c10-later-request-keeps-first-output", ["C10"], [(BSR, '''		b.initialTxns[req.Input.OutPoint] = tx
+	}
+
+	return initialTxns''', '''		if len(b.requests[req.Input.OutPoint]) <= 1 {
+			b.initialTxns[req.Input.OutPoint] = tx
+		}
+	}
+
+	return initialTxns''')], ["C10.V5"])
+mut("c14-connection-height-derived", ["C14"], [(HI, '''	// Get the previous block header from target store.
+	prevBlkHdr, err := h.options.TargetBlockHeaderStore.FetchHeaderByHeight(
+		prevTargetBlockHeight,
+	)''', '''	// Get the previous block header from target store.
+	prevTargetBlockHeight = targetStartHeight - 1
+	prevBlkHdr, err := h.options.TargetBlockHeaderStore.FetchHeaderByHeight(
+		prevTargetBlockHeight,
+	)''')], ["C14.G6"])
+mut("c11-quiet-fanout-stops-at-manager-quit", ["C11", "C19"], [(MG, '''	for _, subscriber := range m.subscribers {
+		m.notifySubscriber(subscriber, ntfn)
+	}
+}''', '''	for _, subscriber := range m.subscribers {
+		if !m.notifySubscriber(subscriber, ntfn) {
+			return
+		}
+	}
+}'''), (MG, '''func (m *SubscriptionManager) notifySubscriber(sub *newSubscription,
+	block BlockNtfn) {
+
+	select {
+	case sub.ntfnQueue.ChanIn() <- block:
+	case <-sub.quit:
+	case <-m.quit:
+		return
+	}
+}''', '''func (m *SubscriptionManager) notifySubscriber(sub *newSubscription,
+	block BlockNtfn) bool {
+
+	select {
+	case sub.ntfnQueue.ChanIn() <- block:
+	case <-sub.quit:
+	case <-m.quit:
+		return false
+	}
+
+	return true
+}''')], [])
+mut("c11-fanout-stops-at-any-quit", ["C11", "C19"], [(MG, '''	for _, subscriber := range m.subscribers {
+		m.notifySubscriber(subscriber, ntfn)
+	}
+}''', '''	for _, subscriber := range m.subscribers {
+		if !m.notifySubscriber(subscriber, ntfn) {
+			return
+		}
+	}
+}'''), (MG, '''func (m *SubscriptionManager) notifySubscriber(sub *newSubscription,
+	block BlockNtfn) {
+
+	select {
+	case sub.ntfnQueue.ChanIn() <- block:
+	case <-sub.quit:
+	case <-m.quit:
+		return
+	}
+}''', '''func (m *SubscriptionManager) notifySubscriber(sub *newSubscription,
+	block BlockNtfn) bool {
+
+	select {
+	case sub.ntfnQueue.ChanIn() <- block:
+	case <-sub.quit:
+		return false
+	case <-m.quit:
+		return false
+	}
+
+	return true
+}''')], ["C11.W1", "C19.W2"])
